@@ -389,6 +389,7 @@ func (x *Exec) instr(st *State, fr *Frame, in ssa.Instruction) {
 			return
 		}
 		v, has := st.mapLookup(mt, xv.Term, x.keyTerm(kv))
+		st.assumeValAllocated(v)
 		if i.CommaOk {
 			fr.Regs[i] = &Val{T: i.Type(), Fields: []*Val{v, {T: types.Typ[types.Bool], Term: has}}}
 		} else {
